@@ -16,7 +16,9 @@ RULE = ("Hypothesis draws HeavyHitters (num_hitters 1..4, adds only) or StreamTh
         "them switched to the mean or mean-min query, under which returned estimates can fall without any removal), "
         "width 1..4, depth 1..3 (colliding), a hash strategy, a pool of 2-9 keys (larger than the table) and 3-50 ops incl. occasional "
         "clear(). Exhaustive slice: width 1, depth 1, 3 keys, every history of length <= L (L=5 quick, 6 thorough) over {add k 1, add k "
-        "2, remove k} for StreamThreshold(threshold 2 and 3) and over {add k 1, add k 2} for HeavyHitters(1 and 2 hitters). Non-trivial "
+        "2, remove k} for StreamThreshold(threshold 2 and 3) and over {add k 1, add k 2} for HeavyHitters(1 and 2 hitters); second slice: "
+        "HeavyHitters (2 and 3 slots) over a collision-free 64x2 sketch, every history of <= L additions of 1, 2 or 3 over four keys up to "
+        "renaming. HeavyHitters also runs with the mean / mean-min queries (count and entry clauses only). Non-trivial "
         "= HH: a tracked key was replaced; ST: an upward and a downward crossing, or an add returning below the threshold for a listed "
         "key. Distinct by resolved history.")
 ASSUMPTIONS = ["removals are legitimate (never exceed the key's outstanding count)"]
